@@ -12,6 +12,13 @@ def run(tier, seed, limit=0):
     if limit:
         scs = scs[:limit]
     chk.run_scenarios(scs, MODULE, fn=RUNNER, batch_events=400)
+    # the reference/copy discipline behind snapshots and restores, for EVERY history of seeds, snapshots, restores, calls, free
+    # calls with an explicit state and global-generator noise: the cells objects and user-held states refer to hold exactly the
+    # abstract stream values of RandStability (B |= A)
+    if tier == "quick":
+        chk.run_mc("B_RandState", label="RandState cells |= stream values: snapshots independent, restores copy")
+    else:
+        chk.run_mc("B_RandState", {"Names": '{"s1", "s2"}', "MaxCells": 5}, workers=12, label="RandState cells |= stream values, two user-held states")
     return chk.finish(LEVEL, "histories of seeds (also one RandState seeding two objects), calls (method / with, satisfiable and not), "
                       "snapshots and restores (into the same and into another instance), each executed in 3-4 fresh processes that "
                       "differ in PYTHONHASHSEED, interleaved unrelated randomizations / global random use / GC and hashing pressure, "
